@@ -196,6 +196,10 @@ class SchedWorld:
 
     def execute(self, n=1, via="execute"):
         if getattr(self, "shadow", None) is not None:
+            self.nexec = getattr(self, "nexec", 0) + 1
+            if self.nexec % 2 == 0:
+                # the other model changes its own system set between two steps of this one
+                self.shadow.systems.add_system(_Idle("only-there-%d" % self.nexec, self.shadow, priority=self.nexec % 3))
             self.shadow.execute()          # the other model is stepped in between
         self.events.append({"op": "exec_begin", "n": n, "via": via})
         exc = None
